@@ -13,7 +13,9 @@ pub mod c07;
 pub mod c08;
 pub mod c09;
 pub mod c10;
+pub mod c11;
 pub mod c12;
+pub mod c13;
 pub mod c15;
 pub mod c18;
 pub mod c20;
@@ -40,7 +42,9 @@ pub fn all() -> Vec<Property> {
         Property { id: "C08", rule: c08::RULE, assumptions: c08::ASSUMPTIONS, suites: c08::suites() },
         Property { id: "C09", rule: c09::RULE, assumptions: c09::ASSUMPTIONS, suites: c09::suites() },
         Property { id: "C10", rule: c10::RULE, assumptions: c10::ASSUMPTIONS, suites: c10::suites() },
+        Property { id: "C11", rule: c11::RULE, assumptions: c11::ASSUMPTIONS, suites: c11::suites() },
         Property { id: "C12", rule: c12::RULE, assumptions: c12::ASSUMPTIONS, suites: c12::suites() },
+        Property { id: "C13", rule: c13::RULE, assumptions: c13::ASSUMPTIONS, suites: c13::suites() },
         Property { id: "C15", rule: c15::RULE, assumptions: c15::ASSUMPTIONS, suites: c15::suites() },
         Property { id: "C18", rule: c18::RULE, assumptions: c18::ASSUMPTIONS, suites: c18::suites() },
         Property { id: "C20", rule: c20::RULE, assumptions: c20::ASSUMPTIONS, suites: c20::suites() },
